@@ -22,6 +22,30 @@ Proof. unfold K_AccountSummary_AddLoss, sub_addloss. destruct (a <? 0); reflexiv
 Lemma gen_Withdraw x a : K_AccountSummary_Withdraw (as_of x) a = option_map as_of (sub_withdraw x a).
 Proof. unfold K_AccountSummary_Withdraw, sub_withdraw. rewrite gen_Available. destruct (a <? 0); [reflexivity|]. destruct (sub_available x <? a); reflexivity. Qed.
 
+(* ---- x/subaccount/types/ticket.go: the split of a subaccount wager into a main-account part and a subaccount part ----------------- *)
+Definition wager_parts_ok (md sd amount : Z) : bool := negb ((md <? 0) || (sd <? 0)) && (md + sd =? amount).
+Lemma gen_wager_parts md sd amount :
+  K_SubAccWagerTicketPayload_Validate {| G_SubAccWagerTicketPayload_MainaccDeductAmount := md; G_SubAccWagerTicketPayload_SubaccDeductAmount := sd |} amount
+  = wager_parts_ok md sd amount.
+Proof.
+  unfold K_SubAccWagerTicketPayload_Validate, wager_parts_ok. cbn [G_SubAccWagerTicketPayload_MainaccDeductAmount G_SubAccWagerTicketPayload_SubaccDeductAmount orb].
+  destruct ((md <? 0) || (sd <? 0)); [reflexivity|]. destruct (md + sd =? amount); reflexivity.
+Qed.
+(* the model's handler refuses exactly what the generated Validate refuses, and an accepted split has no negative part: the subaccount
+   pays at most the stake and nothing but the stake reaches the owner *)
+Lemma sub_wager_parts s sg tk ic tk2 u a sm so ov mu al k ot md sd s' :
+  sub_wager s sg tk ic tk2 u a sm so ov mu al k ot md sd = Some s' ->
+  wager_parts_ok md sd a = true /\ 0 <= md /\ 0 <= sd <= a.
+Proof.
+  unfold sub_wager, wager_parts_ok. intros H.
+  destruct (negb (c_sub_wager s)); [discriminate|]. destruct (sub_by_owner (c_subs s) sg); [|discriminate].
+  destruct (negb (ticket_ok s tk)); [discriminate|]. destruct (negb (sg =? ic)); [discriminate|].
+  destruct (negb (wager_prepare s ic tk2 u a sm so mu al k ot)); [discriminate|].
+  destruct ((md <? 0) || (sd <? 0)) eqn:N; [discriminate|]. destruct (md + sd =? a) eqn:E; [|discriminate].
+  apply orb_false_iff in N. destruct N as [N1 N2]. apply Z.ltb_ge in N1. apply Z.ltb_ge in N2. apply Z.eqb_eq in E.
+  split; [reflexivity|]. lia.
+Qed.
+
 (* the amount sub_withdraw_unlocked pays (keeper/balance.go withdrawUnlocked) and the bound of sub_wager (withdrawLockedAndUnlocked) *)
 Lemma gen_WithdrawableUnlockedBalance x unlocked bank :
   K_AccountSummary_WithdrawableUnlockedBalance (as_of x) unlocked bank = Z.min (Z.min (sub_available x) (zmax0 (unlocked - sa_wd x))) bank.
